@@ -29,6 +29,7 @@ type Ledger struct {
 	FailAt            map[int]bool
 	ReadFail          map[atree.SlabID]bool
 	ReadFailHits      int // number of reads that failed because of ReadFail
+	AllocFail         bool // GenerateSlabID fails (and allocates nothing)
 	Jitter            bool
 	n                 int
 	retrieved, stored int
@@ -101,6 +102,9 @@ func (l *Ledger) Retrieve(id atree.SlabID) ([]byte, bool, error) {
 }
 
 func (l *Ledger) GenerateSlabID(a atree.Address) (atree.SlabID, error) {
+	if l.AllocFail {
+		return atree.SlabID{}, ErrInjected
+	}
 	l.Idx[a]++
 	return MkID(a, l.Idx[a]), nil
 }
